@@ -126,6 +126,8 @@ func TestVerifC05Crash(t *testing.T) {
 		c05CrashChildMain(t)
 		return
 	}
+	// side by side with TestVerifC05Hostile (round 5): both parents only wait for children
+	t.Parallel()
 	seed, _ := strconv.ParseUint(os.Getenv("VERIF_SEED"), 10, 64)
 	outDir := os.Getenv("VERIF_OUT")
 	if outDir == "" {
